@@ -83,11 +83,11 @@ def finish(run, args):
             continue
         insts = [r for r in by_name[name] if r["verdict"] != "unsat"]
         sat = [r for r in insts if r["verdict"] == "sat"]
-        cand = [r for r in insts if r["verdict"] == "unknown" and r.get("model") is not None]
+        cand = [r for r in insts if r["verdict"] == "candidate" or (r["verdict"] == "unknown" and r.get("model") is not None)]
         kf = [k for k in known if k.get("obligation") == name]
         rep = sat[0] if sat else (cand[0] if cand else insts[0])
         inputs = concretise(rep)
-        harness = getattr(mod, "REPLAY", {}).get(obl_key(name)) or getattr(mod, "REPLAY", {}).get("*")
+        harness = pick(getattr(mod, "REPLAY", {}), name)
         payload = dict(property=pid, obligation=name, tree=repo_root(),
                        solver=dict(verdict=rep["verdict"], backend=rep.get("backend"), reason=rep.get("reason"),
                                    secs=rep.get("secs"), model=rep.get("model"), cvc5=rep.get("cvc5")),
@@ -172,6 +172,15 @@ def finish(run, args):
 
 def obl_key(name):
     return name
+
+
+def pick(table, name):
+    """harness registered under the longest key that is a substring of the obligation name ('*' = default)"""
+    best = None
+    for k, v in table.items():
+        if k != "*" and k in name and (best is None or len(k) > len(best[0])):
+            best = (k, v)
+    return best[1] if best else table.get("*")
 
 
 def evidence(run, agg, violations, undecided, known_hits, faults, wall, args):
